@@ -86,7 +86,28 @@ class M1D(nn.Module):
         return self.fc(torch.relu(self.c1(torch.relu(self.c0(x)))).flatten(1))
 
 
-FAMILIES = {'MD': MD, 'MA': MA, 'ML': ML, 'M1D': M1D}
+class MR(nn.Module):
+    """Conv1d -> ReLU -> weight-shared Conv1d head applied at two temporal resolutions (T and T/2) -> pooled to one step, summed -> Linear
+    (a per-invocation metric must charge the head once per call, each with its own output length)"""
+
+    def __init__(self, C=2, cin=1, T=2):
+        super().__init__()
+        self.c0 = nn.Conv1d(cin, C, 1)
+        self.pool = nn.AvgPool1d(2)
+        self.head = nn.Conv1d(C, C, 1)
+        self.gp1 = nn.AvgPool1d(T)
+        self.gp2 = nn.AvgPool1d(T // 2)
+        self.fc = nn.Linear(C, 2)
+
+    def forward(self, x):
+        y1 = torch.relu(self.c0(x))
+        y2 = self.pool(y1)
+        z1 = self.gp1(torch.relu(self.head(y1)))
+        z2 = self.gp2(torch.relu(self.head(y2)))
+        return self.fc((z1 + z2).flatten(1))
+
+
+FAMILIES = {'MD': MD, 'MA': MA, 'ML': ML, 'M1D': M1D, 'MR': MR}
 
 
 def prog_id(spec):
@@ -250,7 +271,7 @@ def exact_bit_costs(m, shape):
     pos = {}
     hooks = []
     for name, mod in layers.items():
-        hooks.append(mod.register_forward_hook(lambda mo, i, o, _n=name: pos.__setitem__(_n, (tuple(i[0].shape), tuple(o.shape)))))
+        hooks.append(mod.register_forward_hook(lambda mo, i, o, _n=name: pos.setdefault(_n, []).append((tuple(i[0].shape), tuple(o.shape)))))    # one entry per invocation
     with torch.no_grad():
         m(torch.zeros((1,) + tuple(shape)))
     for h in hooks:
@@ -271,9 +292,12 @@ def exact_bit_costs(m, shape):
                 k *= ki
             dw = mod.groups == mod.in_channels and mod.groups == mod.out_channels and mod.groups > 1
             per_out = k if dw else cin_alive * k
-            npos = 1
-            for d in pos[name][1][2:]:
-                npos *= d
+            npos = 0
+            for _, osh in pos[name]:
+                q = 1
+                for d in osh[2:]:
+                    q *= d
+                npos += q
         pb = sum(per_out * b for b in wps)
         out['params_bit'] += pb
         out['ops_bit'] += pb * npos * s['in_precision']
